@@ -209,16 +209,35 @@ func (r *Run) guards() []guardInfo {
 	return out
 }
 
-// descr: a stable textual description of a compared quantity (length of an access path, or symbolic integer).
+// descr: a stable textual description of a compared quantity: a constant, the length of an access path, the
+// length of a local collection (with the expression it was sized by, if known), or a symbolic integer.
 func descr(v *Val) string {
 	if v == nil {
 		return "?"
 	}
-	if len(v.LenOf) == 1 {
-		return "len(" + genIv(v.LenOf[0]) + ")"
+	if v.K != nil && len(v.Dir) == 0 {
+		return v.K.ExactString()
+	}
+	if len(v.LenOf) > 0 {
+		var parts []string
+		local := false
+		for _, l := range v.LenOf {
+			if strings.HasPrefix(l, "c:") {
+				local = true
+			} else {
+				parts = append(parts, genIv(l))
+			}
+		}
+		if !local {
+			return "len(" + strings.Join(parts, "|") + ")"
+		}
+		if s := symOf(v); s != "" && !strings.HasPrefix(s, "len(c:") {
+			return "len(local:" + genIv(s) + ")"
+		}
+		return "len(local)"
 	}
 	if s := symOf(v); s != "" {
-		return genIv(s)
+		return genIv(cellTag.ReplaceAllString(s, "local"))
 	}
 	if p, ok := v.Definite(); ok {
 		return genIv(p)
@@ -942,4 +961,32 @@ func (r *Run) bitsRoot() string {
 		}
 	}
 	return "X:ToBinary@?"
+}
+
+// debugGuards lists the normalised refusal guards reachable from an entry (development aid).
+func debugGuards(cx *Ctx, pkg, fn string) {
+	r := cx.Entry(pkg, fn)
+	if r == nil {
+		fmt.Println("no entry")
+		return
+	}
+	for _, g := range r.guards() {
+		m := "may "
+		if g.rec.Must {
+			m = "MUST"
+		}
+		xd, yd := descr(g.x), descr(g.y)
+		fmt.Printf("%s %s  [%s] %s [%s]   xdeps=%v ydeps=%v\n", m, r.site(g.rec), xd, g.op, yd, depNames(r, g.x), depNames(r, g.y))
+	}
+}
+
+func depNames(r *Run, v *Val) []string {
+	if v == nil {
+		return nil
+	}
+	n := r.In.Atoms.Names(r.In.AllDeps(v))
+	if len(n) > 6 {
+		n = append(n[:6], "…")
+	}
+	return n
 }
